@@ -17,11 +17,24 @@ STRENGTHENED = {
     "C13-d": "gammastd_grp is compared on eight pixels per case incl. low-variability int16 rows (high gamma shape), where a single-precision fit shows in the rounded index",
     "C16-d": "valid pixels adjacent to the nodata value (nextafter, +-1e-4, int32 +-1..40) added to the raster generator",
     "C17-d": "mean_grp enumeration also run with ND=3 and ND=1 (values a partial sum of valid cells can reach); generated ND values 3 and 100 added",
-    "C18-d": "sub-check 'history': one DataArray object, time labels re-assigned in place / values overwritten, croo() and lroo() queried in between"}
+    "C18-d": "sub-check 'history': one DataArray object, time labels re-assigned in place / values overwritten, croo() and lroo() queried in between",
+    "C02-e": "sub-check 'accessor': placeholder independence through whits/whitsvc/whitswcv with nodata passed as ARGUMENT (0 included) on arrays that carry an unrelated nodata attribute",
+    "C02-f": "huge finite fill values up to 1e200 and the float64 maximum added to the placeholder encodings",
+    "C06-e": "sub-check 'accessor_linear': linear series through the accessors for uint8/int8/uint16/int16/int32/float32 rasters, incl. lines that leave the input dtype's range at edge gaps",
+    "C07-e": "calibration windows expressed by dates BETWEEN the 10-day steps (begin up to 9 days early, end up to 9 days late) in the accessor path",
+    "C10-e": "sub-check 'history': nodata attribute set / changed / removed in place and pixels overwritten between mktrend() calls on one array object",
+    "C11-f": "time coordinates in datetime64[s|ms|us] covering years 1..9999 (nanoseconds only reach 1678..2261)",
+    "C12-f": "cubes whose requested dimension order is also their MEMORY order (not a transposed view), forced for the widest dtype of every operation",
+    "C14-e": "sub-check 'accessor_written': grouped mean with int8/uint8/int16 id arrays carrying 127..300 groups, compared with the model twice",
+    "C15-e": "layout sub-check with nodata markers 0, -9999, 255 besides -32768",
+    "C17-e": "int64 rasters with nodata values not representable in float32 (2147483647, 16777217, 2^40+1); the oracle compares with the float32 echo of nodata",
+    "C17-f": "nodata passed as argument while the array carries a different nodata attribute ('both') also for mean_grp",
+    "C19-f": "numeric axes starting below zero, so that the label 0 lies inside, at the end of, or off the axis",
+    "C20-e": "daily labels in int16 / uint8 / uint16 / int8 arrays through the accessor (immutability was already checked, only int32 had been generated)"}
 out_root = "/verif/seeded"
 os.makedirs(out_root, exist_ok=True)
 rows = []
-for root, variants in (("/tmp/seeds", ("a", "b")), ("/tmp/seeds2", ("c", "d"))):
+for root, variants in (("/tmp/seeds", ("a", "b")), ("/tmp/seeds2", ("c", "d")), ("/tmp/seeds3", ("e", "f"))):
   for pid in sorted(os.listdir(root)):
     if not pid.startswith("C"):
         continue
@@ -48,7 +61,7 @@ for root, variants in (("/tmp/seeds", ("a", "b")), ("/tmp/seeds2", ("c", "d"))):
         m = {"id": key, "property": pid, "breaks": meta.get("summary"), "needs_to_manifest": meta.get("needs_to_manifest"),
              "files_changed": meta.get("files_changed"), "author": "independent sub-agent given only the property text and a scratch worktree",
              "author_verification": meta.get("verified"),
-             "confirmed_by_me": {"base_commit": "hdc-algo HEAD at evaluation time (pinned tree + fix: commits; 2de2409 for round 1 a/b, 26e16c3 for round 2 c/d)", "patch_applies": True,
+             "confirmed_by_me": {"base_commit": "hdc-algo HEAD at evaluation time (pinned tree + fix: commits; 2de2409 for round 1 a/b, 26e16c3 for round 2 c/d, e8a493c for round 3 e/f)", "patch_applies": True,
                                  "existing_tests_with_patch": tests, "demo_exit_code_clean_tree": 0, "demo_exit_code_patched_tree": int(ev["demo_exit_patched"]),
                                  "how": "tools/seed_eval.sh %s %s (scratch copy of /repo HEAD, git apply, pytest, demo on both trees, ./check %s --tier quick with HDC_REPO=<scratch>)" % (pid, v, pid)},
              "check_result_first_evaluation": FIRST.get(key, "caught"), "check_result_now": ev["check"],
